@@ -621,4 +621,34 @@ example : fileRecords (consoleLevelOf 0) (fileLevelOf (some true) (some 0)) [(1,
       = [(0, 20), (2, 10), (1, 50)] ∧
     fileFlags (consoleLevelOf 1) (fileLevelOf none (some 1)) [(1, 5), (0, 20), (2, 10), (1, 50)] = [false, true, true, true] := by decide
 
+/-! ### `records(priority, offset = k, reverse = True)` (probe mode `revoffset` of the harness)
+
+The harness derives its expectation for this call from the model's forward selection: the indices not above `k`, reversed.
+The two theorems below say that this derived list *is* "walk backwards from record `k` down to record 0 and keep what passes". -/
+
+theorem range_filter_le (n k : Nat) :
+    (List.range n).filter (fun i => decide (i ≤ k)) = List.range (min (k + 1) n) := by
+  induction n with
+  | zero => simp
+  | succ n ih =>
+    rw [List.range_succ, List.filter_append, ih]
+    by_cases h : n ≤ k
+    · have h1 : min (k + 1) (n + 1) = n + 1 := by omega
+      have h2 : min (k + 1) n = n := by omega
+      simp [h1, h2, h, List.range_succ]
+    · have h1 : min (k + 1) (n + 1) = k + 1 := by omega
+      have h2 : min (k + 1) n = k + 1 := by omega
+      simp [h1, h2, h]
+
+theorem reverse_offset_derived (file : Bs) (k p : Nat) :
+    ((select file .forward p).filter (fun i => decide (i ≤ k))).reverse
+      = ((List.range (min (k + 1) (len file))).reverse).filter (passes file p) := by
+  show (((List.range (offsets file).length).filter (passes file p)).filter (fun i => decide (i ≤ k))).reverse = _
+  rw [List.filter_reverse, len, ← range_filter_le, List.filter_filter, List.filter_filter]
+  congr 2
+  funext i; exact Bool.and_comm _ _
+
+/-- non-vacuity of the index arithmetic: three records, k = 0 keeps only record 0; k = 2 walks 2, 1, 0 -/
+example : (List.range (min (0 + 1) 3)).reverse = [0] ∧ (List.range (min (2 + 1) 3)).reverse = [2, 1, 0] := by decide
+
 end Gallia.C17
